@@ -12,7 +12,7 @@ from ..model import call_many
 from ..pool import run_cases
 
 THEOREMS = ["C10_merge_enum_independent", "C10_order_spec", "C10_join_enum_independent", "C10_sites",
-            "C10_inventory_nonempty", "C10_merge_example"]
+            "C10_inventory_nonempty", "C10_merge_example", "C10_constants_are_the_sources"]
 PY = sys.executable
 
 DRIVER = r'''
